@@ -6,6 +6,10 @@ import SkimModel.Driver.C12
 import SkimModel.Driver.C02
 import SkimModel.Driver.C03
 import SkimModel.Driver.C04
+import SkimModel.Driver.C19
+import SkimModel.Driver.C20
+import SkimModel.Driver.C06
+import SkimModel.Driver.C07
 import SkimModel.Driver.C15
 import SkimModel.Driver.C16
 import SkimModel.Driver.C18
@@ -48,6 +52,22 @@ def answer (line : String) : String :=
       | .error e => "error:" ++ e ++ "\terror"
     | "C04" =>
       match C04.handle case impl with
+      | .ok (m, v) => m ++ "\t" ++ v
+      | .error e => "error:" ++ e ++ "\terror"
+    | "C19" =>
+      match C19.handle case impl with
+      | .ok (m, v) => m ++ "\t" ++ v
+      | .error e => "error:" ++ e ++ "\terror"
+    | "C20" =>
+      match C20.handle case impl with
+      | .ok (m, v) => m ++ "\t" ++ v
+      | .error e => "error:" ++ e ++ "\terror"
+    | "C06" =>
+      match C06.handle case impl with
+      | .ok (m, v) => m ++ "\t" ++ v
+      | .error e => "error:" ++ e ++ "\terror"
+    | "C07" =>
+      match C07.handle case impl with
       | .ok (m, v) => m ++ "\t" ++ v
       | .error e => "error:" ++ e ++ "\terror"
     | "C15" => C15.answer case impl
